@@ -212,9 +212,19 @@ def check_retry(ctx, fb):
         ctx.touch(nw)
         e2 = Engine(fb, inline=lambda i: False)
         starts = set()
+        direct, counts = [], set()
         for p in e2.run(nw):
+            if p.kind == "unreachable":
+                continue
             for c in p.calls(r"SledDB::new_with_tries$"):
                 starts.add(c[2][1] if len(c[2]) > 1 else None)
+            counts.add(len(p.calls(r"SledDB::new_with_tries$")))
+            direct += p.calls(r"sled::Config::open$")
+        ctx.check(not direct and counts == {1}, "R18-4", "every open retries (Database::%s)" % nm,
+                  "Database::%s opens the location only through the retrying opener, once on every path" % nm,
+                  "Database::%s %s: a location whose lock is still held by a closing handle is not waited for on that path" % (
+                      nm, "calls sled::Config::open directly" if direct else "makes %s calls to new_with_tries on its paths" % sorted(counts)),
+                  loc(nw, direct[0][3] if direct else None))
         want = {None} if (form == "loop" and not start_param) else {mk_const("u32", 0)}
         ctx.check(starts == want, "R18-4", "retry starts at 0 (Database::%s)" % nm, "Database::%s opens through new_with_tries starting at attempt 0" % nm,
                   "retry counter starts at %s" % [sh(s, 40) for s in starts], loc(nw))
